@@ -326,19 +326,19 @@ def oracle(case, out):
             if tag > 7:
                 continue
             if et != t:
-                bad("call logged on thread %d during an op of thread %d" % (et, t), i, entry=e)
+                bad("call made on a different thread than the operation", i, entry=e)
             if c != cur:
                 flags.add("foreign-default")
             if tag == 1:
                 if sid_ in creator:
-                    bad("second new_span for span %d" % sid_, i, entry=e)
+                    bad("an id was issued by new_span twice", i, entry=e)
                 creator[sid_] = c
                 news[sid_] = news.get(sid_, 0) + 1
                 continue
             if creator.get(sid_) != c:
-                bad("%s(%d) went to collector %d, the span was created by %s" % (TAGS[tag], sid_, c, creator.get(sid_)), i, entry=e)
+                bad("a call about a span went to a collector that did not create it", i, entry=e, call=TAGS[tag], created_by=creator.get(sid_))
             if closes.get(sid_, 0) >= news.get(sid_, 0) + clones.get(sid_, 0):
-                bad("%s(%d) arrived after the last handle's close notification" % (TAGS[tag], sid_), i, entry=e)
+                bad("a call arrived after the last handle's close notification", i, entry=e, call=TAGS[tag])
             if tag == 2:
                 clones[sid_] = clones.get(sid_, 0) + 1
             elif tag == 3:
@@ -347,7 +347,7 @@ def oracle(case, out):
                 depth[(sid_, et)] = depth.get((sid_, et), 0) + 1
             elif tag == 5:
                 if depth.get((sid_, et), 0) == 0:
-                    bad("exit(%d) on thread %d without a matching enter on that thread" % (sid_, et), i, entry=e)
+                    bad("exit without a matching enter on that thread", i, entry=e)
                 else:
                     depth[(sid_, et)] -= 1
         # --- handles made / dropped, as the real Span::id() reports them
@@ -376,11 +376,11 @@ def oracle(case, out):
         for s in set(made) | set(news) | set(clones) | set(closes) | set(dropped):
             m, d_ = made.get(s, 0), dropped.get(s, 0)
             if news.get(s, 0) != 1:
-                bad("span %d: %d new_span calls" % (s, news.get(s, 0)), i)
+                bad("a span with handles does not have exactly one new_span", i, span=s, new_span_calls=news.get(s, 0))
             if clones.get(s, 0) != m - 1:
-                bad("span %d: %d clone_span calls for %d additional handles" % (s, clones.get(s, 0), m - 1), i)
+                bad("#clone_span differs from the number of additional handles", i, span=s, clone_span_calls=clones.get(s, 0), additional_handles=m - 1)
             if closes.get(s, 0) != d_:
-                bad("span %d: %d try_close calls for %d dropped handles" % (s, closes.get(s, 0), d_), i)
+                bad("#try_close differs from the number of dropped handles", i, span=s, try_close_calls=closes.get(s, 0), dropped_handles=d_)
         # --- enter/exit balance against the guards that are alive now
         want = {}
         for e in own.ents:
@@ -389,13 +389,45 @@ def oracle(case, out):
                 want[(s, e[2])] = want.get((s, e[2]), 0) + 1
         for k in set(want) | set(depth):
             if depth.get(k, 0) != want.get(k, 0):
-                bad("span %d thread %d: %d unmatched enters for %d live guards/scopes" % (k[0], k[1], depth.get(k, 0), want.get(k, 0)), i)
+                bad("unmatched enters differ from the live guards / scopes / polls of that span on that thread", i, span=k[0], thread=k[1], unmatched_enters=depth.get(k, 0), live_guards=want.get(k, 0))
         if len(viol) > 6:
             break
     return viol, flags
 
 
 # ------------------------------------------------------------------------------------------------
+
+def wf_all(ops):
+    own = Own()
+    for op in ops:
+        if not own.ok(op):
+            return False
+        own.apply(op)
+    return True
+
+
+def shrink(bin_path, case, what, budget=250):
+    """Greedy op deletion keeping the program well-formed and the same oracle verdict on the real code."""
+    cur = case
+    runs = 0
+    changed = True
+    while changed and runs < budget:
+        changed = False
+        i = len(cur["ops"]) - 1
+        while i >= 0 and runs < budget:
+            cand = dict(cur, ops=cur["ops"][:i] + cur["ops"][i + 1:])
+            if cand["ops"] and wf_all(cand["ops"]):
+                runs += 1
+                rc, out = run_bin(bin_path, input=json.dumps(cand) + "\n", timeout=120)
+                recs = [json.loads(l) for l in out.splitlines() if l.startswith("{")]
+                if rc == 0 and recs and not recs[0].get("fatal"):
+                    viol, _ = oracle(cand, recs[0])
+                    if any(w == what for w, _ in viol):
+                        cur = cand
+                        changed = True
+            i -= 1
+    return cur
+
 
 def model_obs(ctx, cases, tag="cases"):
     """{case id: ([(entries, res)...], ok)} from the Coq model."""
@@ -459,6 +491,7 @@ def run(ctx):
     # ---- implementation
     builds = [False] + ([True] if ctx.thorough() else [])
     impl = {}
+    bin_paths = {}
     for rel in builds:
         ok, paths, log = cargo_build(ctx, "spanapi", ["h_spanapi"], release=rel)
         if not ok:
@@ -475,6 +508,7 @@ def run(ctx):
             rep.tie("run:h_spanapi", False, "rc=%d, %d of %d cases answered: %s" % (rc, len(recs), len(cases), vlib.last_error(out)))
             return rep
         impl["release" if rel else "debug"] = recs
+        bin_paths["release" if rel else "debug"] = paths["h_spanapi"]
     # ---- model
     model = None
     try:
@@ -482,6 +516,7 @@ def run(ctx):
     except Exception as ex:
         rep.tie("model-eval", False, str(ex)[:300])
     # ---- correspondence + oracle
+    shrunk = {}
     for prof, recs in impl.items():
         disagree = []
         for c in cases:
@@ -500,7 +535,17 @@ def run(ctx):
                 rep.count("malformed-rejected")
             viol, flags = oracle(c, r)
             for what, detail in viol[:3]:
-                rep.violation(what + " [%s build]" % prof, {"program": c, "pretty": pretty(c["ops"]), "detail": detail, "profile": prof})
+                if what not in shrunk and len(shrunk) < 4 and r["rejected_at"] < 0:
+                    small = shrink(bin_paths[prof], c, what)
+                    rc2, out2 = run_bin(bin_paths[prof], input=json.dumps(small) + "\n", timeout=120)
+                    r2 = [json.loads(l) for l in out2.splitlines() if l.startswith("{")][0]
+                    d2 = [d for w, d in oracle(small, r2)[0] if w == what]
+                    shrunk[what] = {"program": small, "pretty": pretty(small["ops"]), "detail": d2[0] if d2 else detail,
+                                    "impl_log": [[TAGS[e[2]], e] for o in r2["ops"] for e in o["e"]], "profile": prof,
+                                    "shrunk_from_ops": len(c["ops"])}
+                    rep.violation(what + " [%s build]" % prof, shrunk[what])
+                elif what not in shrunk:
+                    rep.violation(what + " [%s build]" % prof, {"program": c, "pretty": pretty(c["ops"]), "detail": detail, "profile": prof})
             if prof == "debug":
                 for f in flags:
                     rep.count("flag:" + f)
